@@ -31,68 +31,113 @@ type IsoResult struct {
 
 var fatalLine = regexp.MustCompile(`(?m)^(fatal error: .*|panic: .*|runtime: out of memory.*|signal: .*)$`)
 
-// RunIsolated runs every case in a child process of its own (re-executing this binary with the
-// same arguments; the case list must therefore be built deterministically before the call) and hands
-// the results to report in case order. Children inherit the resource limits of this process.
-func (c *Ctx) RunIsolated(sub string, cases []IsoCase, perCaseTimeout time.Duration, report func(i int, cs *IsoCase, r IsoResult)) {
+// RunIsolated runs the cases in child processes (re-executing this binary with the same arguments; the case
+// list must therefore be built deterministically before the call), `batch` consecutive cases per child. A
+// child announces each case before running it, so when it dies the case in flight is known; the remaining
+// cases of that batch are then run by a fresh child. Results are handed to report in case order. Children
+// inherit the resource limits of this process.
+func (c *Ctx) RunIsolated(sub string, cases []IsoCase, batch int, perChildTimeout time.Duration, report func(i int, cs *IsoCase, r IsoResult)) {
+	if batch < 1 {
+		batch = 1
+	}
 	if spec := os.Getenv("VERIF_ISO"); spec != "" {
-		// child: run one case and leave
-		parts := strings.SplitN(spec, ":", 2)
-		if len(parts) != 2 || parts[0] != sub {
+		// child: run cases [from, to) and leave
+		parts := strings.Split(spec, ":")
+		if len(parts) != 3 || parts[0] != sub {
 			return // some other RunIsolated call of this monitor
 		}
-		i, _ := strconv.Atoi(parts[1])
-		if i < 0 || i >= len(cases) {
-			fmt.Println("ISO-BADINDEX")
-			os.Exit(0)
-		}
-		err := cases[i].Run()
-		if err != nil {
-			fmt.Printf("ISO-ERR %s\n", strings.ReplaceAll(err.Error(), "\n", " "))
-		} else {
-			fmt.Println("ISO-OK")
+		from, _ := strconv.Atoi(parts[1])
+		to, _ := strconv.Atoi(parts[2])
+		for i := from; i < to && i < len(cases); i++ {
+			fmt.Printf("ISO-BEGIN %d\n", i)
+			err := cases[i].Run()
+			if err != nil {
+				fmt.Printf("ISO-END %d ERR %s\n", i, strings.ReplaceAll(err.Error(), "\n", " "))
+			} else {
+				fmt.Printf("ISO-END %d OK\n", i)
+			}
 		}
 		os.Exit(0)
 	}
 	results := make([]IsoResult, len(cases))
 	sem := make(chan struct{}, 8)
 	var wg sync.WaitGroup
-	for i := range cases {
+	endRe := regexp.MustCompile(`(?m)^ISO-END (\d+) (OK|ERR ?(.*))$`)
+	beginRe := regexp.MustCompile(`(?m)^ISO-BEGIN (\d+)$`)
+	for lo := 0; lo < len(cases); lo += batch {
+		hi := lo + batch
+		if hi > len(cases) {
+			hi = len(cases)
+		}
 		wg.Add(1)
 		sem <- struct{}{}
-		go func(i int) {
+		go func(lo, hi int) {
 			defer wg.Done()
 			defer func() { <-sem }()
-			start := time.Now()
-			args := append([]string{"-s", "KILL", fmt.Sprint(int(perCaseTimeout.Seconds())), os.Args[0]}, os.Args[1:]...)
-			cmd := exec.Command("timeout", args...)
-			cmd.Env = append(os.Environ(), fmt.Sprintf("VERIF_ISO=%s:%d", sub, i), "GOTRACEBACK=single")
-			var out bytes.Buffer
-			cmd.Stdout, cmd.Stderr = &out, &out
-			_ = cmd.Run()
-			r := IsoResult{Wall: time.Since(start)}
-			o := out.String()
-			switch {
-			case strings.Contains(o, "ISO-OK"):
-			case strings.Contains(o, "ISO-ERR "):
-				k := strings.Index(o, "ISO-ERR ")
-				r.ErrMsg = strings.TrimSpace(strings.SplitN(o[k+8:], "\n", 2)[0])
-				if r.ErrMsg == "" {
-					r.ErrMsg = "(empty error text)"
+			for from := lo; from < hi; {
+				start := time.Now()
+				args := append([]string{"-s", "KILL", fmt.Sprint(int(perChildTimeout.Seconds())), os.Args[0]}, os.Args[1:]...)
+				cmd := exec.Command("timeout", args...)
+				cmd.Env = append(os.Environ(), fmt.Sprintf("VERIF_ISO=%s:%d:%d", sub, from, hi), "GOTRACEBACK=single")
+				var out bytes.Buffer
+				cmd.Stdout, cmd.Stderr = &out, &out
+				_ = cmd.Run()
+				o := out.String()
+				done := map[int]bool{}
+				for _, m := range endRe.FindAllStringSubmatch(o, -1) {
+					i, _ := strconv.Atoi(m[1])
+					if i < from || i >= hi {
+						continue
+					}
+					done[i] = true
+					r := IsoResult{Wall: time.Since(start)}
+					if m[2] != "OK" {
+						r.ErrMsg = strings.TrimSpace(m[3])
+						if r.ErrMsg == "" {
+							r.ErrMsg = "(empty error text)"
+						}
+					}
+					results[i] = r
 				}
-			default:
-				r.Died = true
-				if m := fatalLine.FindString(o); m != "" {
-					r.Fatal = m
-				} else if cmd.ProcessState != nil {
-					r.Fatal = "process ended: " + cmd.ProcessState.String()
+				next := hi
+				inflight := -1
+				for _, m := range beginRe.FindAllStringSubmatch(o, -1) {
+					i, _ := strconv.Atoi(m[1])
+					if i >= from && i < hi && !done[i] {
+						inflight = i
+					}
 				}
+				if inflight >= 0 {
+					r := IsoResult{Died: true, Wall: time.Since(start)}
+					if m := fatalLine.FindString(o); m != "" {
+						r.Fatal = m
+					} else if cmd.ProcessState != nil {
+						r.Fatal = "process ended: " + cmd.ProcessState.String()
+					}
+					results[inflight] = r
+					next = inflight + 1
+				} else {
+					// nothing in flight: either all done, or the child never got as far as the first case
+					for i := from; i < hi; i++ {
+						if !done[i] {
+							results[i] = IsoResult{Died: true, Fatal: "child produced no verdict: " + strings.TrimSpace(lastLine(o))}
+						}
+					}
+				}
+				from = next
 			}
-			results[i] = r
-		}(i)
+		}(lo, hi)
 	}
 	wg.Wait()
 	for i := range cases {
 		report(i, &cases[i], results[i])
 	}
+}
+
+func lastLine(s string) string {
+	s = strings.TrimSpace(s)
+	if k := strings.LastIndex(s, "\n"); k >= 0 {
+		return s[k+1:]
+	}
+	return s
 }
